@@ -338,6 +338,45 @@ def run_case(case: dict, ctx: Ctx) -> None:
     # measure of TRI10 etc. carries the 1e-10 error of 15-digit tabulated abscissae -> same tolerance class
     ctx.check("Wdef", abs(wdef - w_exact) / abs(w_exact), TOL_POST, wdef=wdef, exact=w_exact)
 
+    # ---- second life of the same objects: the mesh is re-coordinated in place by an affine stretch of any size - down to one that
+    # barely moves the nodes - and the same simulation solves the patch test of the stretched part (every cached geometric factor
+    # has to follow; an affine image of the mesh is still a mesh on which the linear field is exact)
+    if rng.random() < 0.6:
+        mag = float(rng.choice([3e-6, 1e-3, 0.2]))
+        A = np.eye(3)
+        A[:dim, :dim] += mag * rng.uniform(-1, 1, (dim, dim))
+        X2 = X @ A.T
+        # ... and, one time out of two, the interior nodes are moved on top of it by a small fraction of the element size (no longer an
+        # affine image: the stiffness itself changes, the domain and the exactness of the linear field do not)
+        jig = float(rng.choice([0.0, 1e-6, 1e-3]))
+        # (first-order elements only: their moved meshes are again unstructured meshes of straight-sided elements, which the property
+        # names; moving single nodes of a quadratic or cubic element bends it in all directions, and an under-integrated serendipity
+        # element - PRISM15 with its stiffness rule - then reproduces the linear field only to the order of the bend, which the
+        # property does not exclude: seen on the unchanged tree when this stage was first written, and withdrawn as a false alarm)
+        if jig and len(interior) and all(t in ("TRI3", "QUAD4", "TETRA4", "HEXA8", "PRISM6") for t in str(et).split("+")):
+            hs = (abs(measure) * abs(np.linalg.det(A[:dim, :dim])) / max(mesh.Ne, 1)) ** (1.0 / dim)
+            X2[interior, :dim] += jig * hs * rng.uniform(-1, 1, (len(interior), dim))
+        U2 = X2 @ G.T + c0
+        u2 = U2[:, :dim].ravel()
+        k2 = f"{key}@re-coordinated-in-place"
+        with ctx.monitored("no-exception", k2 + "/raised"):
+            with quiet():
+                mesh.coord = X2
+                simu.Bc_Init()
+                simu.add_dirichlet(bnd, [U2[bnd, d] for d in range(dim)], names)
+                sol2 = simu.Solve()
+                strain2 = np.asarray(simu.Result("Strain", nodeValues=False))
+                stress2 = np.asarray(simu.Result("Stress", nodeValues=False))
+                wdef2 = float(simu.Result("Wdef"))
+        ctx.event("re-coordinated-in-place", 1)
+        ctx.check("solution", relerr(sol2[dofs_used], u2[dofs_used]), TOL_SOL, k2 + "/solution", stretch=mag, jiggle=jig)
+        if strain2.shape == (mesh.Ne, ncomp):
+            ctx.check("strain", relerr(strain2, np.broadcast_to(eps_v, strain2.shape), scale=np.abs(eps_v).max()), TOL_POST, k2 + "/strain", stretch=mag)
+        if stress2.shape == (mesh.Ne, ncomp):
+            ctx.check("stress", relerr(stress2, np.broadcast_to(sig_v, stress2.shape), scale=np.abs(sig_v).max()), TOL_POST, k2 + "/stress", stretch=mag)
+        w2 = w_exact * abs(np.linalg.det(A[:dim, :dim]))
+        ctx.check("Wdef", abs(wdef2 - w2) / abs(w2), TOL_POST, k2 + "/Wdef", wdef=wdef2, exact=w2, stretch=mag)
+
 
 # ------------------------------------------------------------------------------------------
 def run_beam(case: dict, ctx: Ctx, rng: np.random.Generator) -> None:
